@@ -554,7 +554,8 @@ def classify(answer, info, doc=None):
     m2 = re.fullmatch(r"bad not-visible (\d+); lax bad not-visible (\d+)", answer)
     if doc is not None and m2 and any(partition_hidden_by_inner_select(doc, int(x)) for x in m2.groups()):
         return "group-pipeline-select-hides-partition-column"
-    if doc is not None and re.fullmatch(r"bad not-visible (\d+); lax bad not-visible \1", answer) and site in ("Join.filter", "Select") and info.get("foreign"):
+    if doc is not None and re.fullmatch(r"bad not-visible (\d+); lax bad not-visible \1", answer) and info.get("foreign") and \
+            (site in ("Join.filter", "Select", "Take", "Aggregate", "Sort", "Filter") or str(site).startswith(("Take.", "Aggregate.", "Compute."))):
         # the offending id is a Compute of ANOTHER relation (the inline pipeline that is the join's right-hand side)
         other = [t for tab in doc["tables"] for t in (tab["relation"]["kind"].get("Pipeline") or []) if "Compute" in t and t["Compute"]["id"] == info.get("cid")]
         if other:
